@@ -913,7 +913,6 @@ def _tables():
     body += f'def conditionalIndent : Nat := {st.conditional_indent}\n'
     body += f'def rebuildTestsChildSource : Bool := {"true" if tests else "false"}\n'
     body += 'def conservativeHandlers : List String := [' + ', '.join(q(h) for h in sorted(handlers)) + ']\n'
-    body += 'def statusBranches : List (String × String) := [' + ', '.join(f'({q(a)}, {q(b)})' for a, b in sorted(branches)) + ']\n'
     body += 'end LokiModel.C03\n'
     return {'LokiModel/Generated/C03Tables.lean': body}
 
